@@ -109,10 +109,11 @@ def cases(seed, tier):
                     k += 1
     # a functional called inside another functional's callback, on the same object
     for outer in ("rootfinder", "equilibrium", "solve_ivp"):
-        for ph in PHASES:
-            out.append({"group": "nested_functional", "outer": outer, "phase": ph, "maxpts": 8 if quick else 50,
-                        "seed": sub_seed(seed, "c10s", k)})
-            k += 1
+        for inner in ("quad", "equilibrium", "rootfinder"):
+            for ph in PHASES:
+                out.append({"group": "nested_functional", "outer": outer, "inner": inner, "phase": ph, "maxpts": 8 if quick else 50,
+                            "seed": sub_seed(seed, "c10s", k)})
+                k += 1
     return out
 
 
@@ -232,7 +233,11 @@ class PFRegistry(object):
             reg.created_depth[id(this)] = sum(len(v) for v in reg.shadow.values())
 
         def set_objparams(this, objparams):
-            before = [id(p) for p in this._cur_objparams]
+            # what the OBJECT holds before the substitution (not the function's cached idea of it)
+            try:
+                before = [id(p) for p in held_unique(this)]
+            except Exception:
+                before = [id(p) for p in this._cur_objparams]
             o_set(this, objparams)
             reg.shadow.setdefault(id(this), []).append(before)
             reg.events += 1
@@ -246,9 +251,12 @@ class PFRegistry(object):
                 reg.problems.append(("restore_without_set", "restore_objparams on %s with no matching set_objparams" % type(this).__name__))
                 return
             want = st.pop()
-            now = [id(p) for p in this._cur_objparams]
+            try:
+                now = [id(p) for p in held_unique(this)]
+            except Exception:
+                now = [id(p) for p in this._cur_objparams]
             if now != want:
-                reg.problems.append(("not_lifo", "%s: after restore the current tensors are not those installed before the matching set"
+                reg.problems.append(("not_lifo", "%s: after restore the object does not hold the tensors it held before the matching set"
                                      % type(this).__name__))
         PF.__init__, PF.set_objparams, PF.restore_objparams = __init__, set_objparams, restore_objparams
         # subclasses call super().__init__ -> patched; but they define their own __init__, fine
@@ -713,9 +721,20 @@ def _nested_functional_run(desc, fail, obs, mech, clean):
             spy.core = funcs.core_quad
             return spy(x, self.a, self.lst[0], self.W, 0.4)
 
+        def g2(self, z):
+            spy.core = funcs.core_equil
+            return spy(z, self.a, self.lst[0], self.W, 0.3)
+
         def h(self, *lead):
-            # the outer callback integrates another method of the same object
-            q = quad(self.g, torch.tensor(0.0, dtype=dtype), torch.tensor(0.7, dtype=dtype), n=3)
+            # the outer callback runs another functional on another method of the same object
+            inner = desc.get("inner", "quad")
+            if inner == "quad":
+                q = quad(self.g, torch.tensor(0.0, dtype=dtype), torch.tensor(0.7, dtype=dtype), n=3)
+            elif inner == "equilibrium":
+                q = equilibrium(self.g2, torch.zeros(2, dtype=dtype), method="anderson_acc", f_tol=1e-10, x_tol=1e-10, maxiter=60)
+            else:
+                q = rootfinder(lambda z: z - self.g2(z), torch.zeros(2, dtype=dtype), method="broyden1", f_tol=1e-10, x_tol=1e-10, maxiter=60) \
+                    if False else rootfinder(self.g3, torch.zeros(2, dtype=dtype), method="broyden1", f_tol=1e-10, x_tol=1e-10, maxiter=60)
             y = lead[-1]
             spy.core = funcs.core_equil
             r = spy(y, self.a + 0.1 * q, self.b, self.W, 0.4)
@@ -725,10 +744,13 @@ def _nested_functional_run(desc, fail, obs, mech, clean):
                 return r - y
             return r
 
+        def g3(self, z):
+            return z - self.g2(z)
+
         def getparamnames(self, methodname, prefix=""):
             if methodname == "h":
                 return [prefix + "a", prefix + "b", prefix + "W", prefix + "lst[0]"]
-            if methodname == "g":
+            if methodname in ("g", "g2", "g3"):
                 return [prefix + "a", prefix + "lst[0]", prefix + "W"]
             raise KeyError(methodname)
     e = E()
@@ -738,7 +760,7 @@ def _nested_functional_run(desc, fail, obs, mech, clean):
     dbg0 = xitorch.is_debug_enabled()
     leaves = [lv[k] for k in funcs.LEAF_NAMES]
     phase = desc["phase"]
-    label = "%s whose callback calls quad on the same object, %s" % (desc["outer"], "clean run" if fail is None else "raised at %s evaluation %d" % fail)
+    label = "%s whose callback calls %s on another method of the same object, %s" % (desc["outer"], desc.get("inner", "quad"), "clean run" if fail is None else "raised at %s evaluation %d" % fail)
     with PFRegistry() as reg, WarnLog():
         try:
             spy.phase = "fwd"
@@ -777,7 +799,7 @@ def _nested_functional_run(desc, fail, obs, mech, clean):
 
 
 def run_nested_functional(desc, obs):
-    mech = "nested_functional:%s:%s" % (desc["outer"], desc["phase"])
+    mech = "nested_functional:%s(%s):%s" % (desc["outer"], desc.get("inner", "quad"), desc["phase"])
     spy, err = _nested_functional_run(desc, None, obs, mech, True)
     if spy is None:
         obs.skip("clean run does not complete (%s)" % err[:80])
